@@ -446,8 +446,9 @@ static int run_history(vh_ctx_t * v, int N, const op_t * ops, int nops, int hold
     /* quiescence: clear the queue, the client releases what it holds, nothing may stay allocated */
     memset(&fin, 0, sizeof fin); fin.kind = OP_CLEAR;
     if (!h.dead) { h.cur = nops - 1; do_clear(&h); after_op(&h, &fin); }
-    else { led.on = 0; SCPI_ErrorClear(v->ctx); }
-    while (h.nheld) { int dead = h.dead; client_release(&h, 0); h.dead |= dead; }
+    while (!h.dead && h.nheld) client_release(&h, 0);
+    /* after a violation the library state is not trusted any more (a clear could loop): the queue is re-initialised
+     * by the next history and every text the ledger still knows is released below */
 #if CFG_MALLOC
     if (!h.dead) {
         if (led_nlive) fail(&h, "C10:text-leak-at-quiescence", "queue cleared and client released everything, but %d text allocation(s) are still live (first: \"%s\")", led_nlive, vh_esc(led_live[0].p, led_live[0].len < 40 ? led_live[0].len : 40));
@@ -479,9 +480,9 @@ static void rig_close(rig_t * r) {
 #if !VH_ASAN
     size_t i; const unsigned char * a = (const unsigned char *) r->qblock, * b = (const unsigned char *) (r->qmem + r->N);
     for (i = 0; i < sizeof(scpi_error_t) * QGUARD; i++) if (a[i] != 0xE7 || b[i] != 0xE7) { vh_violation("C10:queue-storage-overrun", "the library wrote outside the %d-entry queue array handed to SCPI_Init (guard byte %zu %s the array changed)", r->N, i, a[i] != 0xE7 ? "before" : "after"); break; }
-    SCPI_ErrorInit(r->v->ctx, r->v->queue, (int16_t) r->N);
     free(r->qblock);
 #endif
+    SCPI_ErrorInit(r->v->ctx, r->v->queue, (int16_t) r->N);
     vh_ctx_free(r->v);
 }
 
@@ -522,6 +523,7 @@ static void p0_run(uint64_t idx, vh_rng_t * rng) {
     (void) rng;
     for (i = PREFIX - 1; i >= 0; i--) { digits[i] = (int) (pre % ALPHA); pre /= ALPHA; }
     vh_case_desc("exhaustive histories of length %d, capacity %d, prefix letters %d%d%d (0 push,1 push+text,2 push+quoted text,3 errorpop,4 SYST:ERR?,5 clear,6 count)", L, N, digits[0], digits[1], digits[2]);
+    vh_watchdog(30);
     rig_open(&rig, N);
     for (s = 0; s < nsuf; s++) {
         uint64_t t = s; long calls, k; int hold = (int) ((s + idx) % 3);
@@ -535,7 +537,7 @@ static void p0_run(uint64_t idx, vh_rng_t * rng) {
             if (!run_history(rig.v, N, ops, L, hold, k, rig.qmem)) CNT(K_INJECT_UNREACHED);
         }
         if ((s & 63) == 0) vh_distinct(vh_hash_u64(s, vh_hash_u64(idx, 0x10)));
-        if (vh_violations() > 200) break;
+        if (vh_violations() > 60) break; /* enough witnesses; a broken library may also hang in later histories */
     }
     if (idx % 97 == 5 && vh_want_sample()) {
         vh_buf_t b = { 0 }; hist_t h; memset(&h, 0, sizeof h); h.N = N; h.ops = ops; h.nops = L; h.cur = L - 1; h.hold_max = 0;
@@ -614,6 +616,7 @@ static void p1_run(uint64_t idx, vh_rng_t * rng) {
     vh_buf_addc(&arena, 0);
     for (i = 0; i < nops; i++) if (ops[i].kind == OP_PUSHT) ops[i].text = arena.p + offs[i];
     vh_case_desc("random history: %d operations, capacity %d, charset %d, client keeps %d, %d%% pushes, %d%% with text, allocation fails %d/8", nops, N, charset, hold, pw_push, p_text, p_fail_num);
+    vh_watchdog(30);
     rig_open(&rig, N);
     run_history(rig.v, N, ops, nops, hold, 0, rig.qmem);
     rig_close(&rig);
